@@ -18,6 +18,9 @@ Max2(a, b) == IF a < b THEN b ELSE a
 Min2(a, b) == IF a < b THEN a ELSE b
 
 NoFile == [ex |-> FALSE, lines |-> <<>>, mt |-> -1]
+(* modification stamps: everything the editor writes within a session carries the same stamp (file times have
+   a granularity of one second and a session is shorter); an external event takes a stamp 1000 larger than any before *)
+WriteStamp == 1
 NewBuf(id, path) == [id |-> id, path |-> path, lb |-> Lb!New, mtime |-> -1, row |-> 0, synced |-> <<>>]
 
 (* st.tab: the open buffers, tab[1] current, tab[2] alternate (MRU order); st.row: the live current line *)
@@ -57,17 +60,19 @@ Save(st, lines, path, force, ts, fault) ==
        ELSE IF path = "" \/ path \notin DOMAIN st.disk THEN [ok |-> FALSE, disk |-> st.disk, why |-> "open"]
        ELSE IF fault = "open" THEN [ok |-> FALSE, disk |-> st.disk, why |-> "open"]
        ELSE IF fault # "" THEN      \* a write or the close failed: the file may hold anything
-            [ok |-> FALSE, disk |-> [st.disk EXCEPT ![path] = [ex |-> TRUE, lines |-> <<-1>>, mt |-> st.now]], why |-> "io"]
-       ELSE [ok |-> TRUE, disk |-> [st.disk EXCEPT ![path] = [ex |-> TRUE, lines |-> lines, mt |-> st.now]], why |-> ""]
+            [ok |-> FALSE, disk |-> [st.disk EXCEPT ![path] = [ex |-> TRUE, lines |-> <<-1>>, mt |-> WriteStamp]], why |-> "io"]
+       ELSE [ok |-> TRUE, disk |-> [st.disk EXCEPT ![path] = [ex |-> TRUE, lines |-> lines, mt |-> WriteStamp]], why |-> ""]
 
 (* bufs_modified(i, msg): TRUE = the caller must refuse *)
 Modified(st, i) ==     \* [refuse, st']
     LET s1 == BumpBuf(st, i)   b == s1.tab[i] IN
     IF ~Dirty(b) THEN [refuse |-> FALSE, st |-> s1]
     ELSE IF s1.aw /\ b.path # ""
-         THEN LET r == Save(s1, b.lb.lines, b.path, FALSE, b.mtime, "") IN     \* autowrite: saved, not marked saved
-              [refuse |-> ~r.ok, st |-> [s1 EXCEPT !.disk = r.disk, !.now = s1.now + 1,
-                                                    !.tab[i].synced = IF r.ok THEN b.lb.lines ELSE b.synced]]
+         THEN LET r == Save(s1, b.lb.lines, b.path, FALSE, b.mtime, "") IN     \* autowrite: written and recorded as saved
+              IF ~r.ok THEN [refuse |-> TRUE, st |-> [s1 EXCEPT !.disk = r.disk, !.now = s1.now + 1]]
+              ELSE [refuse |-> FALSE, st |-> [s1 EXCEPT !.disk = r.disk, !.now = s1.now + 1,
+                                                          !.tab[i].lb = Lb!Saved(b.lb, FALSE), !.tab[i].mtime = WriteStamp,
+                                                          !.tab[i].synced = b.lb.lines]]
          ELSE [refuse |-> TRUE, st |-> [s1 EXCEPT !.msg = "modified"]]
 
 Ret(st, r) == [st EXCEPT !.ret = r]
@@ -78,16 +83,21 @@ Edit(st0, path, force) ==
         st == m.st
     IN IF m.refuse THEN Ret(st, 1)
        ELSE IF path # "" /\ FindPath(st, path) > 0 THEN Ret(Switch(st, FindPath(st, path)), 0)     \* no re-read
+       (* a full table reuses its last slot: refused without force if that buffer is modified *)
+       ELSE IF path # "" /\ Len(st.tab) = st.nb /\ ~force /\ ~st.wa /\ Modified(st, st.nb).refuse
+       THEN Ret(Modified(st, st.nb).st, 1)
        ELSE LET (* a new buffer unless this is a reload of the current one *)
                 s1 == IF path # ""
                       THEN LET full == Len(st.tab) = st.nb
-                               vict == IF full THEN st.tab[st.nb] ELSE NewBuf(0, "")
-                               tabn == IF full THEN [st.tab EXCEPT ![st.nb] = NewBuf(st.cnt + 1, path)]
-                                       ELSE Append(st.tab, NewBuf(st.cnt + 1, path))
-                               s0   == [st EXCEPT !.tab = tabn, !.cnt = st.cnt + 1,
-                                                  !.lost = st.lost \/ (full /\ Differs(vict))]     \* the last slot is overwritten
+                               (* the check of the slot to be reused may have autowritten it *)
+                               sx   == IF full /\ ~force /\ ~st.wa THEN Modified(st, st.nb).st ELSE st
+                               vict == IF full THEN sx.tab[sx.nb] ELSE NewBuf(0, "")
+                               tabn == IF full THEN [sx.tab EXCEPT ![sx.nb] = NewBuf(sx.cnt + 1, path)]
+                                       ELSE Append(sx.tab, NewBuf(sx.cnt + 1, path))
+                               s0   == [sx EXCEPT !.tab = tabn, !.cnt = sx.cnt + 1,
+                                                  !.lost = st.lost \/ (full /\ Differs(vict) /\ ~force /\ ~st.wa)]  \* the last slot is overwritten
                            IN Switch(s0, Len(tabn))
-                      ELSE [st EXCEPT !.lost = st.lost \/ (~force /\ Differs(Cur(st)))]
+                      ELSE [st EXCEPT !.lost = st.lost \/ (~force /\ ~st.wa /\ Differs(Cur(st)))]
                 b  == Cur(s1)
                 f  == IF b.path \in DOMAIN s1.disk THEN s1.disk[b.path] ELSE NoFile
                 (* the file replaces the whole text (one splice); a missing file leaves the text alone *)
@@ -116,7 +126,7 @@ Write(st, path0, whole, beg0, end0, force, xonly, fault) ==
                      lb1   == IF own2 /\ full THEN Lb!Saved(Cur(named).lb, FALSE) ELSE Cur(named).lb
                  IN [named EXCEPT !.disk = r.disk, !.now = s0.now + 1, !.ret = 0, !.msg = "written",
                                   !.tab[1].lb = lb1,
-                                  !.tab[1].mtime = IF own2 THEN s0.now ELSE Cur(named).mtime,
+                                  !.tab[1].mtime = IF own2 THEN WriteStamp ELSE Cur(named).mtime,
                                   !.tab[1].synced = IF own2 /\ full THEN b.lb.lines ELSE Cur(named).synced]
 
 (* ec_quit: kind in q wq x xa *)
@@ -170,7 +180,8 @@ EdAppend(st, k) ==
                   !.row = Max2(0, pos + k - 1), !.ret = 0]
 EdDelete(st) ==
     LET b == Cur(st)  n == Len(b.lb.lines) IN
-    IF n = 0 \/ st.row >= n THEN Ret(st, 1)
+    IF n = 0 THEN Ret(st, 1)
+    ELSE IF st.row >= n THEN Ret(st, 0)         \* the current line lies beyond the text (after an undo): nothing to delete
     ELSE [st EXCEPT !.tab[1].lb = Lb!Edit(b.lb, st.row, st.row + 1, <<>>, FALSE), !.ret = 0]
 EdUndo(st) == LET lb == Lb!Undo(Cur(st).lb) IN [st EXCEPT !.tab[1].lb = lb, !.ret = lb.ret]
 EdRedo(st) == LET lb == Lb!Redo(Cur(st).lb) IN [st EXCEPT !.tab[1].lb = lb, !.ret = lb.ret]
